@@ -154,8 +154,9 @@ def eval_sami(assign):
     return v, tuple(starts)
 
 
-def eval_dfxp(assign, force=None):
+def eval_dfxp(assign, force=None, writer="DFXPWriter"):
     import pycaption
+    from pycaption.dfxp import extras
 
     v = []
     m = model(assign)
@@ -171,10 +172,19 @@ def eval_dfxp(assign, force=None):
     else:
         exp_langs = langs
     try:
-        doc = pycaption.DFXPWriter().write(cs, **kw)
+        wcls = getattr(pycaption, writer, None) or getattr(extras, writer)
+        doc = wcls().write(cs, **kw)
         t = parsers.parse_ttml(doc)
     except Exception as e:  # noqa
-        return [(f"dfxp-write/raises:{type(e).__name__}", {"err": str(e)[:200]})], "raises"
+        return [(f"dfxp-write/raises:{type(e).__name__}" + ("" if writer == "DFXPWriter" else "/" + writer), {"err": str(e)[:200]})], "raises"
+    if writer != "DFXPWriter":
+        # the cue lists of this family have no two captions with identical times: nothing to merge, same divs
+        v_, out_ = [], None
+        got_divs = [(d["lang"], [(p["start"], p["end"], parsers.norm_line(" ".join(p["lines"]))) for p in d["ps"]]) for d in t["divs"]]
+        want_divs = [(l, m[l]) for l in exp_langs]
+        if got_divs != want_divs:
+            v_.append((f"dfxp-write/divs-differ/force:{force}/{writer}", {"got": got_divs, "want": want_divs}))
+        return v_, tuple(l for l, _ in got_divs)
     got_divs = [(d["lang"], [(p["start"], p["end"], parsers.norm_line(" ".join(p["lines"]))) for p in d["ps"]]) for d in t["divs"]]
     want_divs = [(l, m[l]) for l in exp_langs]
     if got_divs != want_divs:
@@ -347,6 +357,12 @@ def run_shard(d):
                 acc.case((name, assign, VARIANT), True, out, {"route": name, "cues_ms_per_language": assign, "variant": VARIANT, "hashseed": os.environ.get("PYTHONHASHSEED")})
                 for kind, det in v:
                     acc.violation(f"C14/{kind}/langs{d['nl']}{vx}", {"k": name, "assign": assign, "variant": VARIANT, "_env": d["_env"]}, det)
+            if (i // d["nparts"]) % 3 == 0:
+                for wr in ("SinglePositioningDFXPWriter", "LegacyDFXPWriter"):
+                    v, out = eval_dfxp(assign, None if (i // d["nparts"]) % 2 else "existing", wr)
+                    acc.case(("dfxp-" + wr, assign, VARIANT), True, out, None)
+                    for kind, det in v:
+                        acc.violation(f"C14/{kind}/langs{d['nl']}{vx}", {"k": "dfxp", "force": None if (i // d["nparts"]) % 2 else "existing", "writer": wr, "assign": assign, "variant": VARIANT, "_env": d["_env"]}, det)
             if (i // d["nparts"]) % 7 == 0:
                 for force in ("existing", "missing"):
                     v, out = eval_dfxp(assign, force)
@@ -428,7 +444,7 @@ def replay(case):
     if k == "sami":
         v, _ = eval_sami(assign)
     elif k == "dfxp":
-        v, _ = eval_dfxp(assign, case.get("force"))
+        v, _ = eval_dfxp(assign, case.get("force"), case.get("writer", "DFXPWriter"))
     else:
         v, _ = eval_vtt_lang(assign)
     return [{"sig": f"C14/{kind}/langs{nl}{vx}", "detail": det} for kind, det in v]
